@@ -1811,7 +1811,12 @@ class UPPDDLReader:
             problem.name = problem_res["name"]
 
             for g in problem_res.get("objects", []):
-                t = types_map[g[1] if len(g) > 1 else Object]
+                type_name = g[1] if len(g) > 1 else Object
+                if type_name == Object and Object not in types_map:
+                    # "object" is predefined in PDDL: the problem file can use it even when
+                    # the domain never mentions it
+                    types_map[Object] = self._env.type_manager.UserType("object", None)
+                t = types_map[type_name]
                 for o in g[0]:
                     problem.add_object(up.model.Object(o, t, problem.environment))
 
